@@ -135,7 +135,7 @@ class Gen:
             self.budget -= 0
             return n
         x = plain('case')
-        x['plan']['fail'] = ['ALWAYS', rng.choice(['E1', 'E2', 'EOther', 'ERt'])]
+        x['plan']['fail'] = ['ALWAYS', rng.choice(['E1', 'E2', 'EOther', 'ERt', 'EKey'])]
         ins = list(self.p['inputs'])
         x['plan']['fail_when'] = sorted(rng.sample(ins, rng.randint(1, len(ins) - 1)))
         self.finish(x)
@@ -343,6 +343,10 @@ class Gen:
             self.dec_after_rec.add(decider)
         ncases = rng.randint(1, 3)
         labels = [f'L{i}' for i in range(ncases)]
+        odd = reuse is None and rng.random() < self.p.get('p_odd_labels', 0.12)
+        if odd:
+            # declared labels need not be truthy strings: '', 0, 1 and strings that look like other values
+            labels = rng.sample(['', 0, 1, '1', 'None', '0'], ncases)
         if reuse is not None:
             # a second SwitchCase mark on the same switch node: it must have a case for every label
             labels = [l for l in self.nodes[reuse]['plan']['labels'] if l != 'ZZZ']
@@ -370,9 +374,17 @@ class Gen:
             dn['plan']['labels'] = list(labels)
         if reuse is None and self.hostile == 'switch_unknown_label' and 'switch_unknown_label' not in self.injected:
             unknown = rng.choice(['ZZZ', None, None, 0, ''])      # a label no case declares (incl. None / falsy)
+            alike = {'1': 1, 1: '1', 'None': None, '0': 0, 0: '0'}
+            twins = [alike[l] for l in labels if l in alike and alike[l] not in labels]
+            if twins:
+                unknown = rng.choice(twins)      # equal to a declared label only after str() / int()
+            elif unknown in labels:
+                unknown = 'ZZZ'
             dn['plan']['labels'] = list(labels) + ['ZZZ']
             dn['plan']['label_by_input'] = {str(rng.choice(self.p['inputs'])): unknown}
             self.injected.add('switch_unknown_label')
+        if reuse is None and not odd and rng.random() < 0.15:
+            dn['plan']['label_enum'] = True      # returns str-enum members equal to the declared labels
         if reuse is None:
             self.finish(dn)
             visible.append(decider)
